@@ -2,7 +2,7 @@
    each variant option of php / op selects exactly that variant of the family model, in any
    position argparse accepts; -q and --quiet are the same switch.  Statements in Prop_C17_pipeline.v. *)
 From Coq Require Import ZArith List Bool Ascii String Lia ZifyBool.
-From Cnfgen Require Import Sem Comb Linear IR Text Dimacs Cli GraphSpec Subst FamTab FamFast
+From Cnfgen Require Import Sem Comb Linear IR Text Dimacs OpbText Cli GraphSpec Subst FamTab FamFast
      Fam_php Fam_count Fam_cliquecol C03_Util Fam_ordering Fam_ramsey Fam_cpls.
 From Cnfgen Require Import SemFacts CliFacts PipelineGraph Pipeline PipelineFacts.
 Import ListNotations.
@@ -29,12 +29,12 @@ Proof.
   intros Hin. rewrite forallb_forall in H. specialize (H _ Hin). cbn in H. discriminate.
 Qed.
 
-Lemma cnfgen_main_single_chunk argv q g :
+Lemma cnfgen_main_single_chunk argv q b g :
   forallb (fun s => negb (String.eqb s "-T")) argv = true ->
-  pl_parse_chunk0 (map lit argv) = PlOk (mk_pl_opts q, Some g) ->
-  cnfgen_main argv = pl_render q (pl_build g).
+  pl_parse_chunk0 (map lit argv) = PlOk (mk_pl_opts q b, Some g) ->
+  cnfgen_main argv = pl_render q b (pl_build g).
 Proof.
-  intros H E. unfold cnfgen_main, pl_quiet_of, pl_formula, pl_formula_of_chunks, pl_formula_of_chunks_with, pl_chunks_of.
+  intros H E. unfold cnfgen_main, pl_quiet_of, pl_opb_of, pl_formula, pl_formula_of_chunks, pl_formula_of_chunks_with, pl_chunks_of.
   rewrite (split_T_single argv H). cbn [map pl_parse_chunks]. rewrite E. reflexivity.
 Qed.
 
@@ -44,7 +44,7 @@ Definition pl_topt (b : bool) (s : String.string) : list text := if b then [lit 
 (* ---------------- php ---------------- *)
 Lemma php_chunk_after tm tn m n f o : pl_nat_tok tm m -> pl_nat_tok tn n ->
   pl_parse_chunk0 (List.app [lit "-q"; lit "php"; tm; tn] (List.app (pl_topt f "--functional") (pl_topt o "--onto")))
-  = PlOk (mk_pl_opts true, Some (FcPhp m n f o)).
+  = PlOk (mk_pl_opts true false, Some (FcPhp m n f o)).
 Proof.
   intros (A1 & D1 & F1 & I1 & P1) (A2 & D2 & F2 & I2 & P2).
   unfold pl_parse_chunk0.
@@ -56,7 +56,7 @@ Qed.
 
 Lemma php_chunk_before tm tn m n f o : pl_nat_tok tm m -> pl_nat_tok tn n ->
   pl_parse_chunk0 (List.app [lit "-q"; lit "php"] (List.app (pl_topt f "--functional") (List.app (pl_topt o "--onto") [tm; tn])))
-  = PlOk (mk_pl_opts true, Some (FcPhp m n f o)).
+  = PlOk (mk_pl_opts true false, Some (FcPhp m n f o)).
 Proof.
   intros (A1 & D1 & F1 & I1 & P1) (A2 & D2 & F2 & I2 & P2).
   unfold pl_parse_chunk0.
@@ -69,7 +69,7 @@ Qed.
 (* `php N` stands for N+1 pigeons and N holes *)
 Lemma php_chunk_one tn n f o : pl_nat_tok tn n ->
   pl_parse_chunk0 (List.app [lit "-q"; lit "php"; tn] (List.app (pl_topt f "--functional") (pl_topt o "--onto")))
-  = PlOk (mk_pl_opts true, Some (FcPhp (n + 1) n f o)).
+  = PlOk (mk_pl_opts true false, Some (FcPhp (n + 1) n f o)).
 Proof.
   intros (A2 & D2 & F2 & I2 & P2).
   unfold pl_parse_chunk0.
@@ -91,13 +91,13 @@ Proof.
   intros Hm Hn out. pose proof Hm as (_ & D1 & _ & _ & P1). pose proof Hn as (_ & D2 & _ & _ & P2).
   pose proof (pl_nodash_not_T _ D1) as T1. pose proof (pl_nodash_not_T _ D2) as T2.
   split.
-  - rewrite (cnfgen_main_single_chunk _ true (FcPhp m n f o)).
+  - rewrite (cnfgen_main_single_chunk _ true false (FcPhp m n f o)).
     + rewrite php_build by assumption. reflexivity.
     + destruct f, o; cbn [pl_opt app forallb]; rewrite T1, T2; reflexivity.
     + replace (map lit _) with (List.app [lit "-q"; lit "php"; lit sm; lit sn] (List.app (pl_topt f "--functional") (pl_topt o "--onto")))
         by (destruct f, o; reflexivity).
       now apply php_chunk_after.
-  - rewrite (cnfgen_main_single_chunk _ true (FcPhp m n f o)).
+  - rewrite (cnfgen_main_single_chunk _ true false (FcPhp m n f o)).
     + rewrite php_build by assumption. reflexivity.
     + destruct f, o; cbn [pl_opt app forallb]; rewrite T1, T2; reflexivity.
     + replace (map lit _) with (List.app [lit "-q"; lit "php"] (List.app (pl_topt f "--functional") (List.app (pl_topt o "--onto") [lit sm; lit sn])))
@@ -110,7 +110,7 @@ Theorem php_one_argument sn n f o : pl_nat_token sn n ->
   = POut (print_dimacs None None (php_numvar (n + 1) n) (to_cnf (php_ir (n + 1) n f o))).
 Proof.
   intros Hn. pose proof Hn as (_ & D2 & _ & _ & P2). pose proof (pl_nodash_not_T _ D2) as T2.
-  rewrite (cnfgen_main_single_chunk _ true (FcPhp (n + 1) n f o)).
+  rewrite (cnfgen_main_single_chunk _ true false (FcPhp (n + 1) n f o)).
   - rewrite php_build by lia. reflexivity.
   - destruct f, o; cbn [pl_opt app forallb]; rewrite T2; reflexivity.
   - replace (map lit _) with (List.app [lit "-q"; lit "php"; lit sn] (List.app (pl_topt f "--functional") (pl_topt o "--onto")))
@@ -135,9 +135,9 @@ Definition pl_plantvar_on (v : pl_plantvar) : bool := match v with PvNone => fal
 
 Lemma op_chunk tn n v p : pl_nat_tok tn n ->
   pl_parse_chunk0 (List.app [lit "-q"; lit "op"; tn] (map lit (List.app (pl_opvar_strs v) (pl_plantvar_strs p))))
-  = PlOk (mk_pl_opts true, Some (FcOp n (pl_opvar_total v) (pl_opvar_smart v) (pl_plantvar_on p) (pl_opvar_knuth v))) /\
+  = PlOk (mk_pl_opts true false, Some (FcOp n (pl_opvar_total v) (pl_opvar_smart v) (pl_plantvar_on p) (pl_opvar_knuth v))) /\
   pl_parse_chunk0 (List.app [lit "-q"; lit "op"] (List.app (map lit (List.app (pl_plantvar_strs p) (pl_opvar_strs v))) [tn]))
-  = PlOk (mk_pl_opts true, Some (FcOp n (pl_opvar_total v) (pl_opvar_smart v) (pl_plantvar_on p) (pl_opvar_knuth v))).
+  = PlOk (mk_pl_opts true false, Some (FcOp n (pl_opvar_total v) (pl_opvar_smart v) (pl_plantvar_on p) (pl_opvar_knuth v))).
 Proof.
   intros (A2 & D2 & F2 & I2 & P2).
   unfold pl_parse_chunk0.
@@ -147,18 +147,18 @@ Proof.
 Qed.
 
 Theorem op_options sn n v p : pl_nat_token sn n ->
-  let out := pl_render true (pl_of_c3 to_cnf (op_formula n (pl_opvar_total v) (pl_opvar_smart v) (pl_plantvar_on p) (pl_opvar_knuth v))) in
+  let out := pl_render true false (pl_of_c3 to_cnf (op_formula n (pl_opvar_total v) (pl_opvar_smart v) (pl_plantvar_on p) (pl_opvar_knuth v))) in
   cnfgen_main (List.app ["-q"%string; "op"%string; sn] (List.app (pl_opvar_strs v) (pl_plantvar_strs p))) = out /\
   cnfgen_main (List.app ["-q"%string; "op"%string] (List.app (List.app (pl_plantvar_strs p) (pl_opvar_strs v)) [sn])) = out.
 Proof.
   intros Hn out. pose proof Hn as (_ & D2 & _ & _ & P2). pose proof (pl_nodash_not_T _ D2) as T2.
   destruct (op_chunk (lit sn) n v p Hn) as [E1 E2].
   split.
-  - rewrite (cnfgen_main_single_chunk _ true (FcOp n (pl_opvar_total v) (pl_opvar_smart v) (pl_plantvar_on p) (pl_opvar_knuth v))).
+  - rewrite (cnfgen_main_single_chunk _ true false (FcOp n (pl_opvar_total v) (pl_opvar_smart v) (pl_plantvar_on p) (pl_opvar_knuth v))).
     + reflexivity.
     + destruct v, p; cbn [pl_opvar_strs pl_plantvar_strs app forallb]; rewrite T2; reflexivity.
     + rewrite <- E1. destruct v, p; reflexivity.
-  - rewrite (cnfgen_main_single_chunk _ true (FcOp n (pl_opvar_total v) (pl_opvar_smart v) (pl_plantvar_on p) (pl_opvar_knuth v))).
+  - rewrite (cnfgen_main_single_chunk _ true false (FcOp n (pl_opvar_total v) (pl_opvar_smart v) (pl_plantvar_on p) (pl_opvar_knuth v))).
     + reflexivity.
     + destruct v, p; cbn [pl_opvar_strs pl_plantvar_strs app forallb]; rewrite T2; reflexivity.
     + rewrite <- E2. destruct v, p; reflexivity.
@@ -170,7 +170,7 @@ Theorem op_exclusive sn n v w : pl_nat_token sn n ->
   cnfgen_main (List.app ["-q"%string; "op"%string; sn] (List.app (pl_opvar_strs v) (pl_opvar_strs w))) = PCliError.
 Proof.
   intros Hn Hv Hw Hd. pose proof Hn as (A2 & D2 & F2 & I2 & P2). pose proof (pl_nodash_not_T _ D2) as T2.
-  unfold cnfgen_main, pl_quiet_of, pl_formula, pl_formula_of_chunks, pl_formula_of_chunks_with, pl_chunks_of.
+  unfold cnfgen_main, pl_quiet_of, pl_opb_of, pl_formula, pl_formula_of_chunks, pl_formula_of_chunks_with, pl_chunks_of.
   rewrite split_T_single by (destruct v, w; cbn [pl_opvar_strs app forallb]; rewrite T2; reflexivity).
   cbn [map pl_parse_chunks]. unfold pl_parse_chunk0.
   destruct v, w; try contradiction; try (exfalso; apply Hd; reflexivity);
@@ -209,7 +209,7 @@ Theorem quiet_spellings rest :
 Proof.
   assert (Q1 : "--quiet"%string <> "-T"%string) by discriminate.
   assert (Q2 : "-q"%string <> "-T"%string) by discriminate.
-  unfold cnfgen_main, pl_quiet_of, pl_formula, pl_formula_of_chunks, pl_formula_of_chunks_with.
+  unfold cnfgen_main, pl_quiet_of, pl_opb_of, pl_formula, pl_formula_of_chunks, pl_formula_of_chunks_with.
   rewrite !(pl_chunks_of_cons "--quiet" rest Q1), !(pl_chunks_of_cons "-q" ("-q"%string :: rest) Q2), !(pl_chunks_of_cons "-q" rest Q2).
   destruct (pl_chunks_of rest) as [|h tl]; [split; reflexivity|].
   cbn [pl_parse_chunks]. unfold pl_parse_chunk0. cbn [forallb].
@@ -217,4 +217,136 @@ Proof.
   replace (pl_is_ascii (lit "-q")) with true by reflexivity. cbn [andb].
   destruct (forallb pl_is_ascii h); [|split; reflexivity]. cbn [negb].
   split; reflexivity.
+Qed.
+
+(* ---------------- -of / --output-format ---------------- *)
+Definition pl_same_cmd (x y : pl_parsed (pl_opts * option pl_fcmd)) : Prop :=
+  match x, y with
+  | PlOk (o1, g1), PlOk (o2, g2) => g1 = g2 /\ pl_quiet o1 = pl_quiet o2
+  | PlErr, PlErr => True
+  | PlOutside, PlOutside => True
+  | _, _ => False
+  end.
+
+Lemma pl_same_cmd_refl x : pl_same_cmd x x.
+Proof. destruct x as [[o g]| |]; cbn; auto. Qed.
+
+(* the format only ends up in the options record *)
+Lemma pl_parse_main_fmt : forall toks q v b1 b2, pl_same_cmd (pl_parse_main q v b1 toks) (pl_parse_main q v b2 toks).
+Proof.
+  intros toks. remember (List.length toks) as k eqn:Hk. revert toks Hk.
+  induction k as [k IHk] using lt_wf_ind. intros toks Hk q v b1 b2.
+  destruct toks as [|t r]; cbn [pl_parse_main]; [cbn; auto|]. cbn [List.length] in Hk.
+  destruct (_ || _).
+  - destruct v; [exact I|]. apply (IHk (List.length r)); [lia|reflexivity].
+  - destruct (_ || _).
+    + destruct q; [exact I|]. apply (IHk (List.length r)); [lia|reflexivity].
+    + destruct (_ || _).
+      * destruct r as [|f r']; [exact I|]. cbn [List.length] in Hk.
+        destruct (pl_starts_dash f); [exact I|].
+        destruct (gs_teqb f (lit "dimacs")); [apply pl_same_cmd_refl|].
+        destruct (gs_teqb f (lit "opb")); [apply pl_same_cmd_refl|].
+        destruct (gs_teqb f (lit "latex")); exact I.
+      * destruct (pl_starts_dash t); [exact I|].
+        destruct (pl_parse_formula t r); cbn; auto.
+Qed.
+
+Lemma pl_run_of_same build x y tl : pl_same_cmd x y ->
+  match (match x with
+         | PlOk (o, g) => match pl_parse_tchunks tl with PlOk ts => PlOk (mk_pl_cmdline o g ts) | PlErr => PlErr | PlOutside => PlOutside end
+         | PlErr => PlErr | PlOutside => PlOutside end) with
+  | PlOk c => pl_run_with build c | PlErr => FrErr | PlOutside => FrOutside end =
+  match (match y with
+         | PlOk (o, g) => match pl_parse_tchunks tl with PlOk ts => PlOk (mk_pl_cmdline o g ts) | PlErr => PlErr | PlOutside => PlOutside end
+         | PlErr => PlErr | PlOutside => PlOutside end) with
+  | PlOk c => pl_run_with build c | PlErr => FrErr | PlOutside => FrOutside end.
+Proof.
+  destruct x as [[o1 g1]| |], y as [[o2 g2]| |]; cbn [pl_same_cmd]; try contradiction; try reflexivity.
+  intros [-> _]. destruct (pl_parse_tchunks tl); reflexivity.
+Qed.
+
+(* the output format selects the writer and changes nothing else: same formula object, same errors *)
+Theorem output_format_same_formula rest :
+  pl_formula ("-q"%string :: "-of"%string :: "opb"%string :: rest) = pl_formula ("-q"%string :: rest) /\
+  pl_formula ("-q"%string :: "--output-format"%string :: "opb"%string :: rest) = pl_formula ("-q"%string :: rest) /\
+  pl_formula ("-q"%string :: "-of"%string :: "dimacs"%string :: rest) = pl_formula ("-q"%string :: rest).
+Proof.
+  assert (Q : "-q"%string <> "-T"%string) by discriminate.
+  assert (O1 : "-of"%string <> "-T"%string) by discriminate.
+  assert (O2 : "--output-format"%string <> "-T"%string) by discriminate.
+  assert (B : "opb"%string <> "-T"%string) by discriminate.
+  assert (D : "dimacs"%string <> "-T"%string) by discriminate.
+  unfold pl_formula, pl_formula_of_chunks, pl_formula_of_chunks_with.
+  rewrite !(pl_chunks_of_cons "-q" _ Q), !(pl_chunks_of_cons "-of" _ O1), !(pl_chunks_of_cons "--output-format" _ O2),
+          !(pl_chunks_of_cons "opb" _ B), !(pl_chunks_of_cons "dimacs" _ D).
+  destruct (pl_chunks_of rest) as [|h tl]; [repeat split; reflexivity|].
+  cbn [pl_parse_chunks]. unfold pl_parse_chunk0. cbn [forallb].
+  replace (pl_is_ascii (lit "-q")) with true by reflexivity.
+  replace (pl_is_ascii (lit "-of")) with true by reflexivity.
+  replace (pl_is_ascii (lit "--output-format")) with true by reflexivity.
+  replace (pl_is_ascii (lit "opb")) with true by reflexivity.
+  replace (pl_is_ascii (lit "dimacs")) with true by reflexivity. cbn [andb].
+  destruct (forallb pl_is_ascii h); [|repeat split; reflexivity]. cbn [negb].
+  change (pl_parse_main false false false (lit "-q" :: lit "-of" :: lit "opb" :: h)) with (pl_parse_main true false true h).
+  change (pl_parse_main false false false (lit "-q" :: lit "--output-format" :: lit "opb" :: h)) with (pl_parse_main true false true h).
+  change (pl_parse_main false false false (lit "-q" :: lit "-of" :: lit "dimacs" :: h)) with (pl_parse_main true false false h).
+  change (pl_parse_main false false false (lit "-q" :: h)) with (pl_parse_main true false false h).
+  repeat split; try reflexivity; apply pl_run_of_same, pl_parse_main_fmt.
+Qed.
+
+(* ... and the bytes are those of the OPB writer on that formula *)
+Lemma nodash_not_lit t (s : String.string) : pl_starts_dash t = false -> pl_starts_dash (lit s) = true -> gs_teqb t (lit s) = false.
+Proof.
+  destruct t as [|c r]; destruct s as [|d s']; cbn; try reflexivity; try discriminate.
+  unfold pl_dash. intros H1 H2. apply Ascii.eqb_eq in H2. subst d. now rewrite H1.
+Qed.
+
+Lemma pl_parse_main_name q v b t r : pl_starts_dash t = false ->
+  pl_parse_main q v b (t :: r) =
+  match pl_parse_formula t r with
+  | PlOk c => PlOk (mk_pl_opts q b, Some c)
+  | PlErr => PlErr
+  | PlOutside => PlOutside
+  end.
+Proof.
+  intros H. cbn [pl_parse_main].
+  rewrite !(nodash_not_lit t _ H) by reflexivity. cbn [orb]. now rewrite H.
+Qed.
+
+Theorem output_format_opb name args n F : pl_starts_dash (lit name) = false ->
+  pl_formula ("-q"%string :: name :: args) = FrOk n F ->
+  cnfgen_main ("-q"%string :: name :: args) = POut (print_dimacs None None n F) /\
+  cnfgen_main ("-q"%string :: "-of"%string :: "dimacs"%string :: name :: args) = POut (print_dimacs None None n F) /\
+  cnfgen_main ("-q"%string :: "-of"%string :: "opb"%string :: name :: args) = POut (print_opb None None (FCnf n F)) /\
+  cnfgen_main ("-q"%string :: "--output-format"%string :: "opb"%string :: name :: args) = POut (print_opb None None (FCnf n F)).
+Proof.
+  intros Hd E.
+  assert (Q : "-q"%string <> "-T"%string) by discriminate.
+  assert (O1 : "-of"%string <> "-T"%string) by discriminate.
+  assert (O2 : "--output-format"%string <> "-T"%string) by discriminate.
+  assert (B : "opb"%string <> "-T"%string) by discriminate.
+  assert (D : "dimacs"%string <> "-T"%string) by discriminate.
+  assert (Nn : name <> "-T"%string).
+  { intros ->. cbn in Hd. discriminate. }
+  destruct (output_format_same_formula (name :: args)) as (E1 & E2 & E3).
+  unfold cnfgen_main. rewrite E1, E2, E3, E. cbn [pl_render].
+  unfold pl_formula, pl_formula_of_chunks, pl_formula_of_chunks_with in E.
+  unfold pl_quiet_of, pl_opb_of. revert E.
+  rewrite !(pl_chunks_of_cons "-q" _ Q), !(pl_chunks_of_cons "-of" _ O1), !(pl_chunks_of_cons "--output-format" _ O2),
+          !(pl_chunks_of_cons "opb" _ B), !(pl_chunks_of_cons "dimacs" _ D), !(pl_chunks_of_cons name args Nn).
+  destruct (pl_chunks_of args) as [|h tl]; [discriminate|].
+  cbn [pl_parse_chunks]. unfold pl_parse_chunk0. cbn [forallb].
+  replace (pl_is_ascii (lit "-q")) with true by reflexivity.
+  replace (pl_is_ascii (lit "-of")) with true by reflexivity.
+  replace (pl_is_ascii (lit "--output-format")) with true by reflexivity.
+  replace (pl_is_ascii (lit "opb")) with true by reflexivity.
+  replace (pl_is_ascii (lit "dimacs")) with true by reflexivity. cbn [andb].
+  destruct (negb _); [discriminate|].
+  change (pl_parse_main false false false (lit "-q" :: lit "-of" :: lit "opb" :: lit name :: h)) with (pl_parse_main true false true (lit name :: h)).
+  change (pl_parse_main false false false (lit "-q" :: lit "--output-format" :: lit "opb" :: lit name :: h)) with (pl_parse_main true false true (lit name :: h)).
+  change (pl_parse_main false false false (lit "-q" :: lit "-of" :: lit "dimacs" :: lit name :: h)) with (pl_parse_main true false false (lit name :: h)).
+  change (pl_parse_main false false false (lit "-q" :: lit name :: h)) with (pl_parse_main true false false (lit name :: h)).
+  rewrite !(pl_parse_main_name _ _ _ (lit name) h Hd).
+  destruct (pl_parse_formula (lit name) h) as [c| |]; try discriminate.
+  destruct (pl_parse_tchunks tl); try discriminate. intros _. cbn. repeat split; reflexivity.
 Qed.
